@@ -486,6 +486,8 @@ def terminals(tier: str, seed: int):
     ts = []
     for lo, hi in itertools.combinations_with_replacement(BOUNDARY, 2):
         ts.append(("range", lo, hi))
+    for lo, hi in [(0x7A, 0x61), (0x39, 0x30), (0x10FFFF, 0x0), (0x62, 0x61)]:
+        ts.append(("range", lo, hi))  # empty ranges never match
     for c in BOUNDARY:
         ts.append(("lit", c))
     for name in ASCII_SETS:
@@ -505,7 +507,7 @@ def terminals(tier: str, seed: int):
         [("ci", ord("a")), L("b")], [("ci", ord("k")), R("0", "9")], [L("a"), ("ci", ord("A"))], [("ci", ord("z")), ("ci", ord("y"))],
         [R("a", "c"), R("à", "å")], [L("K"), L("k")], [R("퟾", "퟿"), R("", "")],
         [R("￿", "\U00010000"), L("\U0010ffff")], [L(" "), L("\t"), L("\n"), L("\r")], [R("z", "z"), R("a", "a")],
-        [R("b", "y"), L("a"), L("z")], [L("{"), L("}"), L("|")], [L("."), L("*"), L("+"), L("?")], [L("("), L(")"), L("$")],
+        [R("b", "y"), L("a"), L("z")], [R("z", "a"), L("x")], [R("z", "a"), R("y", "b")], [R("a", "c"), R("z", "m"), L("q")], [L("{"), L("}"), L("|")], [L("."), L("*"), L("+"), L("?")], [L("("), L(")"), L("$")],
     ]
     for m in mixes:
         ts.append(("choice", tuple(m)))
